@@ -5,8 +5,13 @@
 
   * `c13_strip_append`       — on a text that ends between lexical items (`Closed`), the comment scanner is compositional:
                                what follows is scanned as if it stood alone.
-  * `c13_comment_block/line` — so a block comment inserted at such a point is replaced by exactly the newlines it contains
-                               and a line comment by nothing (its newline stays), whatever precedes and follows.
+  * `c13_comment_block/line` — so a block comment inserted at such a point is replaced by `commentRepl`: exactly the newlines it
+                               contains; if it has none and stands directly between two characters that are no white space, one
+                               blank (so that `uint8/**/a` are two tokens); else nothing (`c13_comment_repl`) — and a line
+                               comment by nothing (its newline stays).  Since the output of a block comment now depends on its two
+                               neighbours, `Closed`, `stripFrom` and these theorems carry the input character in front of the text
+                               (`prev`) and the one behind it (`next`); what stands in front only matters for a text that itself
+                               starts with a block comment (`c13_strip_prev`).
   * `c13_newlines_preserved` — for every text at all: the scanner preserves the line structure (line numbers in error
                                messages and the line-oriented parts of the parser see the same lines).
   * `c13_resolve_chain`      — `resolve` succeeds exactly on alias chains of at most 10 look-ups that end in a type, and
@@ -26,19 +31,42 @@ import Proofs.Lemmas.C13
 namespace Cstruct.Parser.C13
 open Cstruct Cstruct.Parser
 
-theorem c13_strip_append (a o b : List Char) (h : Closed a o) : strip (a ++ b) = o ++ strip b :=
-  strip_append a o b h
+theorem c13_strip_append (p : Option Char) (a o b : List Char) (h : Closed p a b.head? o) :
+    stripFrom p (a ++ b) = o ++ stripFrom (lastOr p a) b :=
+  strip_append p a o b h
 
-theorem c13_comment_block (a o body b : List Char) (h : Closed a o) (hb : hasClose body = false) :
-    strip (a ++ ('/' :: '*' :: body ++ '*' :: '/' :: b)) = o ++ newlinesOf body ++ strip b :=
-  comment_block a o body b h hb
+theorem c13_comment_block (p : Option Char) (a o body b : List Char) (h : Closed p a (some '/') o) (hb : hasClose body = false) :
+    stripFrom p (a ++ ('/' :: '*' :: body ++ '*' :: '/' :: b))
+      = o ++ commentRepl (lastOr p a) body b.head? ++ stripFrom (some '/') b :=
+  comment_block p a o body b h hb
 
-theorem c13_comment_line (a o body b : List Char) (h : Closed a o) (hb : ∀ c ∈ body, isEol c = false) :
-    strip (a ++ ('/' :: '/' :: body ++ '\n' :: b)) = o ++ strip ('\n' :: b) :=
-  comment_line a o body b h hb
+theorem c13_comment_line (p : Option Char) (a o body b : List Char) (h : Closed p a (some '/') o) (hb : ∀ c ∈ body, isEol c = false) :
+    stripFrom p (a ++ ('/' :: '/' :: body ++ '\n' :: b)) = o ++ stripFrom (some '/') ('\n' :: b) :=
+  comment_line p a o body b h hb
 
-theorem c13_newlines_preserved (l : List Char) : newlinesOf (strip l) = newlinesOf l :=
-  newlines_preserved l
+/-- the three outcomes of a block comment (`commentRepl`): its newlines; else one blank between two characters that are no white
+    space; else nothing -/
+theorem c13_comment_repl (p n : Option Char) (body : List Char) :
+    (newlinesOf body ≠ [] → commentRepl p body n = newlinesOf body) ∧
+    (newlinesOf body = [] → ∀ x y, p = some x → n = some y → isSpace x = false → isSpace y = false → commentRepl p body n = [' ']) ∧
+    (newlinesOf body = [] → (p = none ∨ n = none ∨ (∃ x, p = some x ∧ isSpace x = true) ∨ (∃ y, n = some y ∧ isSpace y = true)) →
+      commentRepl p body n = []) := by
+  refine ⟨?_, ?_, ?_⟩
+  · intro h; simp [commentRepl, h]
+  · intro h x y hp hn hx hy; subst hp hn; simp [commentRepl, h, hx, hy]
+  · intro h hc
+    simp only [commentRepl, h, List.isEmpty_nil, if_true]
+    rcases hc with rfl | rfl | ⟨x, rfl, hx⟩ | ⟨y, rfl, hy⟩
+    · rfl
+    · cases p <;> rfl
+    · cases n <;> simp [hx]
+    · cases p <;> simp [hy]
+
+theorem c13_strip_prev (p p' : Option Char) (l : List Char) (h : ∀ r, l ≠ '/' :: '*' :: r) : stripFrom p l = stripFrom p' l :=
+  stripFrom_prev p p' l h
+
+theorem c13_newlines_preserved (p : Option Char) (l : List Char) : newlinesOf (stripFrom p l) = newlinesOf l :=
+  newlines_preserved p l
 
 theorem c13_resolve_chain (tbl : List (String × Bind)) (name : String) (id : Nat) :
     resolveB tbl 10 name = some id ↔ ∃ k, k ≤ 10 ∧ Chain tbl name id k :=
@@ -85,7 +113,7 @@ theorem c13_builtin_aliases :
   builtin_aliases
 
 -- non-vacuity: a closed text with a string, both comment kinds and a division; a chain of two aliases
-example : Closed "a /* x\n */ \"//\" b / 2 // c\n".toList "a \n \"//\" b / 2 \n".toList := sample_closed
+example : Closed none "x/*c*/y /* x\n */ \"//\" b / 2 // c\n".toList none "x y \n \"//\" b / 2 \n".toList := sample_closed
 example : Chain [("A", .alias "B"), ("B", .alias "C"), ("C", .type 7)] "A" 7 3 :=
   .alias "A" "B" 7 2 rfl (.alias "B" "C" 7 1 rfl (.type "C" 7 rfl))
 
